@@ -23,6 +23,7 @@ type genTx struct {
 	isBlob bool
 	inner  []byte
 	blobs  []blobSpec
+	canon  []byte // canonical encoding when raw is a non-canonically encoded blob tx (nil otherwise)
 }
 
 type sqCase struct {
@@ -102,8 +103,27 @@ func (c *Ctx) genSquareCase(maxChoices []int) sqCase {
 			filler = c.rng.Range(915, 950)
 		}
 		raw := c.makeBlobTx(specs, filler)
+		var canon []byte
+		if c.rng.Chance(1, 14) {
+			// the same blob tx in a non-canonical protobuf encoding (still a blob tx for UnmarshalBlobTx):
+			// type id first, or an unknown field after it
+			suffix := []byte{0x1a, 0x04, 'B', 'L', 'O', 'B'}
+			if bytes.HasSuffix(raw, suffix) {
+				alt := append([]byte(nil), raw...)
+				if c.rng.Bool() {
+					alt = append(append([]byte(nil), suffix...), raw[:len(raw)-len(suffix)]...)
+					bd = append(bd, "typeid-first")
+				} else {
+					alt = append(alt, 0x78, 0x01)
+					bd = append(bd, "unknown-field")
+				}
+				if b2, is, err := tx.UnmarshalBlobTx(alt); is && err == nil && len(b2.Blobs) == len(specs) {
+					canon, raw = raw, alt
+				}
+			}
+		}
 		btx, _, _ := tx.UnmarshalBlobTx(raw)
-		sc.txs = append(sc.txs, genTx{raw: raw, isBlob: true, inner: btx.Tx, blobs: specs})
+		sc.txs = append(sc.txs, genTx{raw: raw, isBlob: true, inner: btx.Tx, blobs: specs, canon: canon})
 		d = append(d, "b["+strings.Join(bd, " ")+"]")
 	}
 	if c.rng.Chance(1, 6) {
@@ -500,7 +520,18 @@ func (c *Ctx) squareCase(sc sqCase) {
 	c.emit("sh deconstruct", dout)
 	c.oracle()
 	if sc.class != "empty-tx" {
-		if dtx == nil && dout != "ok n=0 H=cbf29ce484222325 []" || !eqTxs(dtx, b1.kept) {
+		// Deconstruct re-marshals blob txs canonically: for a non-canonically encoded input the expected
+		// bytes are its canonical encoding (C02 quantifies over canonical encodings)
+		wantD := make([][]byte, len(b1.kept))
+		for i, k := range b1.kept {
+			wantD[i] = k
+			for _, g := range sc.txs {
+				if g.canon != nil && bytes.Equal(g.raw, k) {
+					wantD[i] = g.canon
+				}
+			}
+		}
+		if dtx == nil && dout != "ok n=0 H=cbf29ce484222325 []" || !eqTxs(dtx, wantD) {
 			fail("C02", fmt.Sprintf("Deconstruct(Construct(kept)) returned %s for %d kept txs", trunc(dout, 120), len(b1.kept)))
 		}
 	}
@@ -589,7 +620,7 @@ func streamBuilder(c *Ctx) {
 	// the empty list
 	c.squareCase(sqCase{max: 4, thr: 64, desc: "empty"})
 	// the 1x1 tail padding square deconstructs to the empty list
-	nc := c.n(700, 40000)
+	nc := c.n(700, 12000)
 	maxes := []int{1, 2, 2, 4, 4, 4, 8, 8, 16}
 	if c.thorough {
 		maxes = []int{1, 2, 4, 4, 8, 8, 16, 16, 32, 64}
@@ -736,7 +767,7 @@ func occupied(sq square.Square) int {
 }
 
 func streamBHist(c *Ctx) {
-	nh := c.n(700, 30000)
+	nh := c.n(700, 10000)
 	for i := 0; i < nh; i++ {
 		c.newCase()
 		sc := c.genSquareCase([]int{1, 2, 2, 4, 4, 8, 8, 16})
